@@ -10,7 +10,7 @@ def build(S: Sources) -> Unit:
     return Unit(
         property_id="C03",
         verus=vfiles,
-        kani=[L.loop_kani("C03"), E.entry_kani("C03", only={"thread_counts_two"})],
+        kani=L.loop_kani("C03", S, errs) + [E.entry_kani("C03", only={"thread_counts_two"})],
         build_errors=errs,
         undecided_clauses=L.LOOP_UNDECIDED + EXTRA_UNDECIDED,
         assumptions=L.LOOP_ASSUMPTIONS,
